@@ -2,7 +2,7 @@
 """C05 — inbound SMTP DATA is decoded transparently and framed only by CRLF.CRLF."""
 import os, sys
 sys.path.insert(0, os.path.join(os.path.dirname(os.path.abspath(__file__)), "..", "tools"))
-from nqlib import run_standard, VERIF
+from nqlib import run_standard, VERIF, byte_mutations, kv
 
 RULE = ("every byte string over {CR,LF,'.','x'} up to length %s (exhaustive; read chunkings full/1/2), each also followed by "
         "CRLF.CRLF and a next command; every header of up to 4 lines from an 11-line Received/Delivered-To near-miss set; seeded random "
@@ -14,6 +14,26 @@ RULE = ("every byte string over {CR,LF,'.','x'} up to length %s (exhaustive; rea
         "the composed Lean model sblast (substdio_get(1) over Nq.Substdio with the plan as read script) is compared with the implementation on "
         "verdict, stored bytes, consumed count, final ssin.p/ssin.n and the number of read() calls; the chunk-independence oracle requires every "
         "split of a stream to give the same verdict/stored bytes/consumed count; non-trivial = distinct input containing CR or LF")
+
+PREFIXES = ("0", "1", "2", "1023", "1023,1")
+
+
+def mutate(dis, seed):
+    """failing-input search around disagreeing cases: shortest inputs first, each mutated under ITS OWN plan as well as the
+    standard ones; the volume is bounded (long inputs get fewer mutations) so that the single-process search stays in seconds"""
+    ds = sorted(dis, key=lambda d: len(kv(d).get("in", "")))[:50]
+    cases, vol = set(), 0
+    for d in ds:
+        f = kv(d)
+        plans = tuple(dict.fromkeys((f.get("chunk", "0"),) + PREFIXES))
+        per = max(4, min(400, 6000000 // (50 * max(1, len(f.get("in", "-"))) * len(plans))))
+        new = byte_mutations([d], seed, b"\r\n.x", per=per, prefix_variants=plans)
+        cases.update(new)
+        vol += sum(len(c) for c in new)
+        if vol > 4000000:
+            break
+    return sorted(cases)
+
 
 def builder(s):
     """qmail-smtpd as a program object of its own (its writable data in sections the harness restores before every case:
@@ -29,7 +49,7 @@ run_standard("C05", "Nq.Props.C05", "drv_c05", "harness/c05_blast.c", "qmail-smt
              ["qmail.o", "timeoutread.o", "timeoutwrite.o"],
              "9 4000", "12 60000", {"quick": RULE % (9, 5), "thorough": RULE % (12, 8)},
              "dblast/hopsOf (Nq/SmtpIn.lean) and sblast over Nq.Substdio (Nq/SmtpIO.lean) vs qmail-smtpd.c blast() over substdi.c", alphabet=b"\r\n.x",
-             builder=builder, stdin_prefixes=("0", "1", "2", "1023", "1023,1"),
+             builder=builder, mutate=mutate, stdin_prefixes=PREFIXES,
              assumptions=["the value-level substdio model (Nq/Substdio.lean: the buffer is the list of unread bytes, not the array x) is tied to "
                           "substdi.c by running the real substdio under the read plans and comparing ssin.p/ssin.n/read() counts (and by C20's harness); "
                           "read() returns 0 only at the end of the stream",
